@@ -3,14 +3,12 @@ CONSTANTS
   NB = 5
   REQQ = 0
   DEFOUT = 3
-  MAXOUT = 2
+  MAXOUT = 50
   FAST = TRUE
   STRICT = TRUE
-  REQUEUE = FALSE
+  REQUEUE = TRUE
   HOSTILE = FALSE
   GUARD = FALSE
-INVARIANT PipelineBound
 INVARIANT WireBound
-INVARIANT NoDoubleOpen
 CONSTRAINT Small
 CHECK_DEADLOCK FALSE
